@@ -339,17 +339,20 @@ func bitsEqual(x, y []byte, bits int) bool {
 
 // netContains: an IPv4 network contains IPv4 addresses, native or IPv4-mapped
 // (both reach the same IPv4 destination); an IPv6 network contains IPv6
-// addresses; a network written in IPv4-mapped notation with a prefix of at
-// least 96 bits is the IPv4 network it embeds.
+// addresses. A network written in IPv4-mapped notation (::ffff:a.b.c.d/n,
+// n >= 96) contains the IPv4-mapped addresses in it — the very same IPv6
+// addresses —; whether it also covers the native IPv4 spelling is left open
+// (not demanded).
 func (r refRule) netContains(a addr) bool {
 	rb, rbits, r4 := r.base, r.bits, r.base.fam4
+	mappedRule := false
 	if !r4 {
 		if _, ok := rb.v4part(); ok && rbits >= 96 {
-			r4, rbits = true, rbits-96
+			r4, rbits, mappedRule = true, rbits-96, true
 		}
 	}
 	if q, ok := a.v4part(); ok {
-		if !r4 {
+		if !r4 || (mappedRule && a.fam4) {
 			return false
 		}
 		return bitsEqual(rb.b[12:], q[:], rbits)
